@@ -55,6 +55,8 @@ class Attr:
         self.ded = ded            # counterpart this instruction is dedicated to (rendered `ded| args`)
 
     def full_args(self):
+        if getattr(self, 'bare_ded', False):
+            return self.ded           # `#[ghost(Type)]`: dedicated, written without the bar
         if self.ded is None:
             return self.args
         return '%s| %s' % (self.ded, self.args or '')
@@ -313,7 +315,7 @@ def grid_variant_fields(names=None):
 # ---------------------------------------------------------------------------------------------
 # grid 3: trait instructions (C04): every name x item kind x counterpart form x error form
 # ---------------------------------------------------------------------------------------------
-COUNTERPARTS = ['A', 'x::y::A', '::x::A', 'A<T>', "A<'a, T>", 'x::A::<u8>', '(i32, String)', 'A as {}', 'A as ()', 'A as Unit']
+COUNTERPARTS = ['A', 'x::y::A', '::x::A', 'A<T>', "A<'a, T>", 'x::A::<u8>', '(i32, String)', '(i32,)', 'A as {}', 'A as ()', 'A as Unit']
 ERRORS = ['Er', 'x::Er', 'Er<String>', "Er<'a, u8>", 'std::io::Error']
 
 
@@ -1377,6 +1379,34 @@ def c05_attr(form, k):
     return Attr(nm, 'e%d(~)' % k, ded=ded)
 
 
+INTO_SIDE_NAMES = [n for n in MEMBER_MAP_NAMES if all(not k.startswith('from') for k, _ in kinds_of(n))]
+
+
+def c05_into_forms():
+    """into-side instructions, with an expression or with nothing at all (`#[into]`, `#[into()]`, `#[into(A| )]`): an argument-less
+    instruction is an instruction - `map this member as it is` - and shadows less specific ones like any other"""
+    forms = []
+    for nm in INTO_SIDE_NAMES:
+        for ded in (None, 'A', 'B'):
+            forms.append((nm, ded, False))
+            forms.append((nm, ded, True))
+    return forms
+
+
+def c05_into_item(forms):
+    fa = []
+    for i, (nm, ded, empty) in enumerate(forms):
+        if empty:
+            fa.append(Attr(nm, '' if (ded or i % 2) else None, ded=ded))
+        else:
+            fa.append(Attr(nm, 'e%d(~)' % (i + 1), ded=ded))
+    attrs = []
+    for cp in ('A', 'B'):
+        attrs += [trait_attr('into', cp), trait_attr('into_existing', cp), trait_attr('try_into', cp, '', 'Er'), trait_attr('try_into_existing', cp, '', 'Er')]
+    fields = [Field('a', 'i32', fa), Field('b', 'i16', [])]
+    return Item('struct', 'S', 'named', '', attrs, fields, {'gen': 'c05i', 'forms': forms, 'shape': 'into-side'}), fa
+
+
 def c05_item(forms, shape='named'):
     named = shape == 'named'
     fa = [c05_attr(f, i + 1) for i, f in enumerate(forms)]
@@ -1411,7 +1441,11 @@ def c06_cases(rng, n):
     out = []
     for i in range(n):
         # counterparts are identified by their full spelling: the pool holds twins that differ in the module path / the generic argument only
-        cps = rng.sample(['A', 'B', 'C', 'x::D', 'G<u8>', 'y::D', 'x::A', 'G<u16>', 'x::G<u8>', 'K<2>', 'K<4>', 'K<-1>', "R<'a>", "R<'b>", 'G<u8, 2>', 'G<u8, 3>'], rng.choice([2, 2, 3]))
+        cps = rng.sample(['A', 'B', 'C', 'x::D', 'G<u8>', 'y::D', 'x::A', 'G<u16>', 'x::G<u8>', 'K<2>', 'K<4>', 'K<-1>', "R<'a>", "R<'b>", 'G<u8, 2>', 'G<u8, 3>',
+                          'car_v1', '_low', 'car_v1', 'b'], rng.choice([2, 2, 3]))
+        cps = list(dict.fromkeys(cps))
+        if len(cps) < 2:
+            cps.append('B2')
         def ded():
             r = rng.random()
             return None if r < 0.35 else rng.choice(cps)
@@ -1444,7 +1478,10 @@ def c06_cases(rng, n):
                         fa.append(Attr(rng.choice(MEMBER_MAP_NAMES), rng.choice([m, '%s, ~.c()' % m, '~ + %d' % j]), ded=ded()))
                     elif r < 0.55:
                         nm = rng.choice(GHOSTS)
-                        fa.append(Attr(nm, '{ %d }' % j, o2o=(nm != 'ghost'), ded=ded()))
+                        g = Attr(nm, '{ %d }' % j, o2o=(nm != 'ghost'), ded=ded())
+                        if g.ded is not None and _re.fullmatch(r'\w+', g.ded) and rng.random() < 0.4:
+                            g.args, g.bare_ded = None, True          # `#[ghost(Type)]`: dedicated ghost without default, written without `|`
+                        fa.append(g)
                     elif r < 0.8:
                         fa.append(Attr('child', rng.choice(['base', 'base.inner', 'p']), ded=ded()))
                     elif r < 0.9:
@@ -2551,8 +2588,17 @@ def c08_cases(rng, n):
                 fields.append(Field('par' if named else None, 'P', [Attr('parent')]))
             if spec['tail'] and spec['tail'][0] == 'update' and named and len(attrs) == 1 and rng.random() < 0.5:
                 fields.append(Field('g', 'u8', [Attr('ghost')]))      # filled by ..update (only when every instruction has one)
+            nested = False
+            if spec['tail'] and spec['tail'][0] == 'update' and named and 'existing' not in nm and not any(a.name == 'parent' for f in fields for a in f.attrs) \
+                    and rng.random() < 0.3:
+                # a nested destination container: the literal built for it is closed by the same ..update
+                nested = True
+                attrs.append(Attr('child_parents', rng.choice(['base: Base', 'base: Base, base.inner: Inner'])))
+                fields.append(Field('c', 'i32', [Attr('child', 'base')]))
+                if 'inner' in attrs[-1].args:
+                    fields.append(Field('d', 'i32', [Attr('child', 'base.inner')]))
             it = Item('struct', 'S', 'named' if named else 'tuple', '', attrs, fields)
-        it.meta = {'gen': 'c08', 'spec': spec, 'instr': nm, 'cp': 'A'}
+        it.meta = {'gen': 'c08', 'spec': spec, 'instr': nm, 'cp': 'A', 'nested': (not enum) and nested}
         out.append(it)
     return out
 
@@ -2706,7 +2752,7 @@ def c09_cases(rng, n):
 
         def new_pat(cp):
             if strs:
-                return rng.choice(['_', '"s1" | "s2"', '"zz"'])
+                return rng.choice(['_', '"s1" | "s2"', '"zz"', '"s 1" | "s 2"', '"z z"'])
             a = rng.randrange(0, 10)
             return rng.choice(['_', '%d..=%d' % (a, a + rng.randrange(0, 5)), '%d | %d' % (a, a + 2), '%d..' % a, 'i32::MIN..=-1' if cp == 'i32' else '200..=255'])
 
@@ -2748,7 +2794,8 @@ def c09_cases(rng, n):
                     rng.shuffle(ded)
                     va += ded
             elif r < 0.55:
-                lit = ('"s%d"' % lits[j]) if strs else str(lits[j])
+                # string values that differ in blanks only are different values
+                lit = (rng.choice(['"s%d"', '"s%d"', '"s %d"', '" s%d"']) % lits[j]) if strs else str(lits[j])
                 va.append(Attr('literal', lit))
                 for cp in cps:
                     eff[cp] = (lit, None)
